@@ -4,4 +4,4 @@ import sdp_common
 
 
 def run(ctx):
-    return sdp_common.run_sdp(ctx, "C12", ['default','alwaysdc','fallback','rtxfec','feconly','nortx'], 150, 4000, ['OneSectionPerTransceiver','KindMidDirection','Msid','Ssrcs','ApplicationIff'])
+    return sdp_common.run_sdp(ctx, "C12", ['default','alwaysdc','alwaysdcA','fallback','rtxfec','feconly','nortx'], 150, 4000, ['OneSectionPerTransceiver','KindMidDirection','Msid','Ssrcs','ApplicationIff'])
